@@ -3,6 +3,8 @@ package harness
 // C18 (Go structs, pointers, typed slices) and C19 (the jpgo command).
 
 import (
+	"time"
+	"context"
 	"bytes"
 	"encoding/json"
 	"fmt"
@@ -520,11 +522,21 @@ func predCLI(c Case) (r Result) {
 		args = append(args, "--")
 	}
 	args = append(args, expr)
-	cmd := exec.Command(bin, args...)
+	// "exits with status ...": the process must exit. 30 s is four orders of magnitude above
+	// what jpgo needs for these inputs (the same kind of watchdog as C05's).
+	ctx, cancel := context.WithTimeout(context.Background(), 30*time.Second)
+	defer cancel()
+	cmd := exec.CommandContext(ctx, bin, args...)
 	cmd.Stdin = bytes.NewReader(stdin)
 	var stdout, stderr bytes.Buffer
 	cmd.Stdout, cmd.Stderr = &stdout, &stderr
 	err := cmd.Run()
+	if ctx.Err() == context.DeadlineExceeded {
+		r.Nontrivial = true
+		r.Violation = "jpgo did not exit within 30 s"
+		r.Got = "stdout so far: " + stdout.String()
+		return
+	}
 	exit := 0
 	if err != nil {
 		if ee, ok := err.(*exec.ExitError); ok {
